@@ -40,7 +40,7 @@ ANCHORS = ['pfhedge.nn.modules.hedger:Hedger.compute_hedge',
            'pfhedge.features.features:Variance.get',
            'pfhedge.features.features:Moneyness.get']
 DECIDING = ["hedge.prefix_invariant", "hedge.no_trade_at_maturity", "feature.prefix_invariant"]
-REQUIRED_BRANCHES = ["variance_exactly_zero_before_the_end", "feature.step_counted_from_the_end", "sibling_hedger_shares_features", "branch.stepwise", "branch.vectorised", "poison.nan", "poison.scale", "poison.resample", "grad.on", "grad.off"]
+REQUIRED_BRANCHES = ["user_forward_hook_limits_position", "variance_exactly_zero_before_the_end", "feature.step_counted_from_the_end", "sibling_hedger_shares_features", "branch.stepwise", "branch.vectorised", "poison.nan", "poison.scale", "poison.resample", "grad.on", "grad.off"]
 
 
 def snapshot(derivative):
@@ -93,6 +93,10 @@ def drv_hedge(ctx, k, rng):
         return
     grad = bool(rng.random() < 0.4)
     ctx.branch("grad.on" if grad else "grad.off")
+    if rng.random() < 0.25 or k % 10 == 3:
+        # a user forward hook on the hedger that returns a modified output (a position limit): the reported hedge is what the call returns
+        hedger.register_forward_hook(lambda mod_, inp_, out_: out_.clamp(-0.2, 0.35))
+        ctx.branch("user_forward_hook_limits_position")
     model_kind = desc["model"]
     bsmodel = model_kind in ("bs", "ww")
     snap = snapshot(derivative)
